@@ -1,4 +1,4 @@
-CONSTANTS Discoveries = {"flag"}
+CONSTANTS Discoveries = {"flag", "flag_over_cwd"}
 INIT Init
 NEXT Next
 INVARIANTS Emit ModelAgrees
